@@ -11,7 +11,7 @@ TB = ("Trusted: CPython executing auditok's source over proxy values; the AST pa
 
 CHECKS = {
     "C01": dict(level="model_checking", tech="symbolic execution of the real tokenizer, z3 per path: inductive step (Inv03, unbounded streams) + bounded runs",
-                text="Inductive step over the real _process/_post_process from an arbitrary invariant state (streams of any length, unbounded parameters) plus bounded whole runs (N<=6 quick / 10 thorough) through tokenize() in its three delivery modes; every path obligation decided by z3.",
+                text="Inductive step over the real _process/_post_process from an arbitrary invariant state (streams of any length, unbounded parameters) plus bounded whole runs (N<=6 quick / 10 thorough) through tokenize() in its three delivery modes, with ordinary, falsy-and-empty and mixed frame objects and validators answering a bool or True/None; every path obligation decided by z3.",
                 ref="§5 C01"),
     "C02": dict(level="model_checking", tech="symbolic execution + z3: closed-form constructor query over Z^6, inductive step, bounded runs with symbolic initial phase",
                 text="Constructor accept/reject proved for all integer 6-tuples; length bounds by inductive step (init_min<=1) and bounded runs with unbounded parameters incl. symbolic init_min/init_max_silence.",
@@ -23,52 +23,52 @@ CHECKS = {
                 text="Bounded equivalence (N<=6 quick / 10 thorough frames, unbounded parameters, 4 modes) between the real tokenizer and a reference written from the statement; consequences asserted separately.",
                 ref="§5 C04"),
     "C05": dict(level="model_checking", tech="symbolic execution of split() over an uninterpreted byte sequence (segment lists + LIA), z3 decides byte identity, timing and equality with the tokenizer segmentation",
-                text="Real split()/AudioRegion.split chain on inputs of <=4 (quick) / 6 (thorough) analysis windows with sample count, window size and window counts as unbounded integers; formats and rates enumerated.",
+                text="Real split()/AudioRegion.split chain on inputs of <=4 (quick) / 6 (thorough) analysis windows with sample count, window size and window counts as unbounded integers; formats and rates enumerated; inputs bytes, regions (with start / conflicting kwargs), readers, recording readers.",
                 ref="§5 C05"),
     "C06": dict(level="other", tech="exact floating-point SMT lemma (z3 QF_FP, bit-exact doubles) over the real split()/_duration_to_nb_windows + LIA wiring/accept-reject query with a recording tokenizer",
                 text="K: for every IEEE double duration/window in the stated range the window count that reaches the tokenizer lies in the statement's tolerance band (3 QF_FP lemmas through the real split()). D: with durations as exact rationals, the three counts reach the right tokenizer slots, are computed with the reader's block duration or analysis_window, and ValueError is raised exactly in the documented cases.",
                 ref="§5 C06", note="Trusted: z3's FloatingPoint theory as a model of CPython's binary64 arithmetic (RNE; ceil/floor as roundToIntegral); the D half idealises floats as rationals and abstracts the three conversions."),
     "C07": dict(level="model_checking", tech="symbolic execution through a numpy shim (sqrt/log10/square uninterpreted with instantiated axioms), one z3 query per configuration over symbolic bytes and threshold",
-                text="Real energy validator on windows of every width 1/2/4 x 1-3 (4) channels x 1-2 (3) samples per channel with every byte and the threshold symbolic, all channel selectors incl. out-of-range and unknown; decision == statement, monotone in the threshold, stateless.",
+                text="Real energy validator on windows of every width 1/2/4 x 1-3 (4) channels x 1-2 (3) samples per channel with every byte and the threshold symbolic, all channel selectors incl. out-of-range and unknown; decision == statement, monotone in the threshold, stateless; plus windows of 5000/9000 samples with three symbolic samples.",
                 ref="§5 C07", note="Trusted in addition: the numpy shim (self-validated against numpy each run); float64 rounding inside numpy is outside the claim."),
     "C08": dict(level="model_checking", tech="symbolic execution + z3: 3+N real runs per path (generator, callback, list, every prefix) with a counting source",
                 text="Hand-over moment, single end-of-stream request, delivery-mode equality and prefix consistency decided per path for streams of <=5 (quick) / 8 (thorough) frames with unbounded parameters; split() laziness on the byte-level harness.",
                 ref="§5 C08"),
     "C09": dict(level="model_checking", tech="symbolic differential: real split() through every container kind / alias spelling on the same symbolic bytes inside one path, z3 decides region-list equality",
-                text="9 container kinds, 10 alias spellings and max_read (quarter-sample resolution) compared with the run on raw bytes for inputs of <=3 (quick) / 5 (thorough) windows with unbounded sample count, window size and counts.",
+                text="12 container kinds, 12 alias spellings (incl. explicit None and zero values) and max_read (quarter-sample resolution, through bytes, regions, sources, lazy wav) compared with the run on raw bytes for inputs of <=3 (quick) / 4 (thorough) windows with unbounded sample count, window size and counts.",
                 ref="§5 C09"),
     "C10": dict(level="model_checking", tech="symbolic execution over an uninterpreted byte sequence (segment lists, LIA lengths), z3 decides block identity and existence",
-                text="K consecutive reads (6 quick / 12 thorough) of the real AudioReader stack with source length, block, hop and max_read as unbounded integers; all overlap/limiter/recorder combinations and four input kinds.",
+                text="K consecutive reads (6 quick / 12 thorough) of the real AudioReader stack with source length, block, hop and max_read as unbounded integers; all overlap/limiter/recorder combinations and five input kinds (incl. standard input with short read1 chunks), a premature read before open(); block/hop sizes from bit-exact doubles == floor(fl(dur*rate)) at five rates (QF_FP lemma).",
                 ref="§5 C10"),
     "C11": dict(level="model_checking", tech="symbolic execution + z3 against a model state; file sources through I/O stubs",
-                text="Buffer source from an arbitrary position through every sequence of K operations (2 quick / 3 thorough) with unbounded arguments; raw/wav/stdin sources through every sequence of 4/5 operations (read, read(None), reopen, redundant open; stdin may deliver short chunks through read1); bit-exact int(rate*ms/1000) lemma by cvc5 for |rate*ms| <= 2^24 (quick) / 2^49 (thorough).",
+                text="Buffer source from an arbitrary position through every sequence of K operations (2 quick / 3 thorough) with unbounded arguments; raw/wav/stdin sources through every sequence of 4/5 operations (read, read(None), close/open, redundant open; stdin may deliver short chunks through read1 and goes on after close/open); bit-exact int(rate*ms/1000) lemma by cvc5 for |rate*ms| <= 2^24 (quick) / 2^49 (thorough).",
                 ref="§5 C11"),
     "C12": dict(level="model_checking", tech="symbolic schedules: real worker threads under a baton scheduler, every scheduling decision and time-out forked through the engine within a pre-emption bound; z3 decides input-path feasibility",
-                text="TokenizerWorker + 1-2 recording observers on 3 (quick) / 5 (thorough) windows with symbolic activity; <=2 (3) pre-emptive switches, <=1 (2) spurious time-outs per worker: observers' logs == detections == split(); all threads end; no deadlock.",
+                text="TokenizerWorker + 1-3 recording observers (also a real PrintWorker) on 2-4 (quick) / up to 7 (thorough) windows with symbolic activity; <=2 (3) pre-emptive switches, <=1 (2) spurious time-outs per worker; also partial last windows, a main thread that returns without joining, workers started by hand, invalid parameters, and concrete entirely active streams of 70-260 (600) windows: observers' logs == detections == split(); all threads end; no deadlock.",
                 ref="§5 C12-C14", note="Trusted: the cooperative scheduler as a model of CPython threads switching at queue operations and joins; exhaustive forking (not a closed-form argument) along the schedule dimension."),
     "C13": dict(level="model_checking", tech="symbolic schedules as C12 with the real StreamSaverWorker (symbolic cache threshold), AudioEventsJoinerWorker, RegionSaverWorker over wave stubs",
-                text="Saved stream == blocks read (header, closed file), joined file == split_and_join_with_silence(), one correctly named file per detection, under every schedule within the bounds.",
+                text="Saved stream == blocks read (header, closed file), joined file == split_and_join_with_silence(), one correctly named file per detection, under every schedule within the bounds; a concrete 70 000-frame stream saved, joined and exported as raw / wav (with stale temp files present).",
                 ref="§5 C12-C14", note="Trusted: as C12, plus the wave/open write stubs (replays use real wav files)."),
     "C14": dict(level="model_checking", tech="symbolic schedules as C12 with the main thread's stop_all() schedulable at every point",
                 text="After a stop at any point: all threads finished, observers' log == detections of split() on exactly the blocks read, saved wav closed and holding those blocks.",
                 ref="§5 C12-C14", note="Trusted: as C12."),
     "C15": dict(level="model_checking", tech="symbolic execution + z3: unbounded-LIA formatter kernel, symbolic option wiring against split(), exhaustive end-to-end runs of cmdline.main under the cooperative scheduler",
-                text="Formatter proved for all durations p/q; option values proved to reach split() and the reader unchanged for all rationals; cmdline.main(argv) for 18 argv templates x every activity pattern of 5 (quick) / 7 (thorough) windows: printed lines, files, exit status.",
+                text="Formatter proved for all durations p/q; option values proved to reach split() and the reader unchanged for all rationals; cmdline.main(argv) for 32 argv templates x every activity pattern of 5 (quick) / 7 (thorough) windows: printed lines, files, exit status.",
                 ref="§5 C15", note="Trusted: cooperative scheduler with one fair schedule for the end-to-end part; argparse; real numpy on concrete loud/quiet windows; file/wave stubs."),
     "C16": dict(level="model_checking", tech="symbolic execution + z3 (QF_LIA + byte-segment normalisation): slice semantics for all integers n, a, b",
                 text="Real AudioRegion.__getitem__ and the seconds/milliseconds views for unbounded region length and bounds; time bounds as exact rationals.",
                 ref="§5 C16"),
     "C17": dict(level="model_checking", tech="symbolic execution + z3 (LIA segment normalisation, sequence theory for ==): region algebra over independent uninterpreted byte sequences",
-                text="+, sum, join of up to 4/5 regions, repetition and division by up to 6/8, make_silence for all durations p/q, construction for any byte count, equality; all lengths unbounded.",
+                text="+, +=, sum, join of up to 4/5 regions (mismatch in rate, width, channels, or width and channels with equal frame size), repetition and division by up to 6/8, make_silence for all durations p/q, construction for any byte count, immutability (assignment and deletion), equality; all lengths unbounded.",
                 ref="§5 C17"),
     "C18": dict(level="model_checking", tech="symbolic differential through in-memory file/wave stubs, z3 decides byte identity and the load(skip,max_read) slice",
-                text="save/to_file then load/from_file for 8 name/format spellings, eager and lazy, with unbounded region length; load(skip,max_read) for all quarter-sample durations incl. past-the-end and zero; numpy export for small windows.",
+                text="save/to_file then load/from_file for 10 name/format spellings, eager and lazy, with unbounded region length; load(skip,max_read) for all quarter-sample durations incl. past-the-end and zero; numpy export for small windows.",
                 ref="§5 C18"),
     "C19": dict(level="model_checking", tech="symbolic execution + z3 over every operation history of length K",
-                text="Every history of 5 (quick) / 8 (thorough) operations out of read/rewind/.data on a recording reader with unbounded n, block, hop, max_read.",
+                text="Every history of 5 (quick) / 7 (thorough) operations out of read/rewind/.data, each followed by an audit (rewind, data, read, read), on a recording reader with unbounded n, block, hop, max_read, mono and multichannel; recordings of 1100 (5000) blocks; non-recording readers keep data/rewind hidden.",
                 ref="§5 C19"),
     "C20": dict(level="model_checking", tech="symbolic execution + z3: stale-state over-approximation and real two-run histories vs a fresh object",
-                text="Tokenizer with every per-run field arbitrary vs fresh (over-approximation of any history) and real two-run histories (complete, partially consumed, closed generator); other objects by differential runs in one path.",
+                text="Tokenizer with every per-run field arbitrary vs fresh (over-approximation of any history) and real two-run histories (complete, partially consumed, closed, both generators requested first, closed while the later run is in progress); other objects (bytes, regions, readers, rewound recorders with an abandoned pass in between, buffer sources, validators, array windows) by differential runs in one path.",
                 ref="§5 C20"),
 }
 
